@@ -88,8 +88,18 @@ func genCase(rt *rapid.T) Case {
 	for i := 1; i <= nfun; i++ {
 		sigs = append(sigs, proggen.FunSig{Name: fmt.Sprintf("zf%d", i), Arity: 1 + rapid.IntRange(0, 1).Draw(rt, "arity")})
 	}
+	// half of the programs also have a function that closes over a binding of an enclosing let (a counter):
+	// its state must survive forward references, redefinition of other functions and repeated evaluation
+	counter := rapid.Bool().Draw(rt, "closure-defun")
+	if counter {
+		sigs = append(sigs, proggen.FunSig{Name: "zf9", Arity: 1})
+	}
 	firstFun := len(c.Defs)
 	for i := range sigs {
+		if counter && i == len(sigs)-1 {
+			c.Defs = append(c.Defs, "(let ((cn 0)) (defun zf9 (a) (setq cn (+ cn a 1))))")
+			continue
+		}
 		c.Defs = append(c.Defs, r.Print(g.DefunIndexed(i, sigs)))
 	}
 	g.SetCallable(sigs)
